@@ -337,6 +337,50 @@ func checkC18(c *Ctx) *report.Result {
 		}
 		r.Ob("M-wave", ok, "wave RAM "+kind+" with channel 3 off", handlerPos(ev), detail)
 	}
+	// ... whether sound is powered or not (wave RAM is ordinary memory on the DMG; only NR10-NR51 are frozen by power-off):
+	// with the power flag fixed either way the write stores the written byte and the read returns the stored byte
+	if pObj, pPath := c.powerCell(); pObj != nil && arr != "" {
+		for _, pw := range []bool{true, false} {
+			setup := func(st *ai.State) {
+				off(st)
+				st.SetCell(pObj, pPath, ai.NewConstBool(pw))
+			}
+			ev := c.evalDecoder(true, 0xFF30, 0xFF3F, setup, nil)
+			stored := false
+			for cell, v := range ev.Stores {
+				if strings.HasPrefix(cell, arr) {
+					if iv, isInt := v.(*ai.Int); isInt {
+						exact := true
+						for i := 0; i < 8; i++ {
+							exact = exact && isSrcBit(iv.Bits[i], ev.ValSym, i)
+						}
+						stored = stored || exact
+					}
+				}
+			}
+			same, n, got := c.readReturnsLoadedByte(0xFF30, 0xFF3F, setup)
+			r.Ob("M-wave", stored && same && n == 1, fmt.Sprintf("wave RAM is written and read with channel 3 off and sound power %v", pw), handlerPos(ev), fmt.Sprintf("written byte stored: %v; read returns %s (element loads %d)", stored, got, n))
+		}
+	} else {
+		r.Fail("unresolved", "M-wave", "power flag / wave array", "", "not found")
+	}
+	// no write to any other address stores into wave RAM while channel 3 is off (the unused addresses of the sound
+	// block FF15, FF1F, FF27-FF2F included)
+	if arr != "" {
+		for _, iv := range c.elementaryIntervals() {
+			if iv[0] >= 0xFF30 && iv[1] <= 0xFF3F {
+				continue
+			}
+			w := c.evalDecoder(true, iv[0], iv[1], off, nil)
+			var hit []string
+			for cell := range w.Stores {
+				if strings.HasPrefix(cell, arr) {
+					hit = append(hit, cell)
+				}
+			}
+			r.Ob("M-wave", len(hit) == 0, fmt.Sprintf("write %04X-%04X with channel 3 off leaves wave RAM alone", iv[0], iv[1]), handlerPos(w), fmt.Sprintf("stores %v", hit))
+		}
+	}
 	// "off" is what NR52 reports: for every valuation of the flags NR52 and the wave RAM read consult in which
 	// NR52 bit 2 reads 0, the wave RAM read returns the stored byte itself (no redirection to the play position)
 	{
@@ -393,7 +437,7 @@ func checkC18(c *Ctx) *report.Result {
 		}
 		r.Ob("M-wave", len(bad) == 0 && n0 > 0, "wave RAM is plain and untouched by a trigger whenever NR52 reports channel 3 off", handlerPos(probe), fmt.Sprintf("%d flag valuations with NR52 bit 2 = 0 examined; %s", n0, strings.Join(bad, "; ")))
 	}
-	r.Rule("M-status", "NR52 bits 0-3 are the channel status as C19 decides it (S-on, S-dac, S-power, S-sweep, S-length, S-off re-stated)")
-	adopt(r, c.sibling("C19"), map[string]string{"S-on": "M-status", "S-dac": "M-status", "S-power": "M-status", "S-sweep": "M-status", "S-length": "M-status", "S-off": "M-status"}, "a channel left on or off against the documented causes makes NR52 read a wrong status bit")
+	r.Rule("M-status", "NR52 bits 0-3 are the channel status as C19 decides it (S-on, S-dac, S-power, S-sweep, S-length, S-off, S-extra, S-neg re-stated)")
+	adopt(r, c.sibling("C19"), map[string]string{"S-on": "M-status", "S-dac": "M-status", "S-power": "M-status", "S-sweep": "M-status", "S-length": "M-status", "S-off": "M-status", "S-extra": "M-status", "S-neg": "M-status"}, "a channel left on or off against the documented causes makes NR52 read a wrong status bit")
 	return r
 }
